@@ -316,6 +316,7 @@ void h_safety(void) {
 #include "blk_emit.h"
 #include "blk_qltlv.h"
 #include "blk_pair.h"
+#include "blk_thread.h"
 #ifdef REL_CLASS
 #include "blk_rel.h"
 #else
